@@ -84,7 +84,7 @@ def to_datetime(obj):
         # dt is datetime.datetime(2017, 12, 4, 12, 0)
     """
 
-    if isinstance(obj, datetime):
+    if isinstance(obj, datetime) and not isinstance(obj, pd.Timestamp):
         return obj
     else:
         return pd.to_datetime(obj).to_pydatetime()
